@@ -383,7 +383,7 @@ def c19(ctx):
     C.model_check(ctx, "Jpgo", {}, invariants=["OutputImpliesSuccess", "ExitMeaning"], properties=["Terminates"], spec="Spec", name="Jpgo",
                   workers=2, coverage=True)
     jpgo = os.path.join(ctx.scratch, "jpgo")
-    p = subprocess.run(["go", "build", "-o", jpgo, "github.com/jmespath/go-jmespath/cmd/jpgo"], cwd=C.HARNESS, env=C.GOENV, capture_output=True, text=True)
+    p = subprocess.run(["go", "build"] + C.modfile_args(ctx) + ["-o", jpgo, "github.com/jmespath/go-jmespath/cmd/jpgo"], cwd=C.HARNESS, env=C.GOENV, capture_output=True, text=True)
     if p.returncode != 0:
         raise C.Machinery("building cmd/jpgo failed: " + p.stderr[-1500:])
     files = []
